@@ -725,4 +725,95 @@ theorem runCmdsAlloc_le (d : Bytes) (st : St) (cs : List Cmd) : runCmdsAlloc d s
         have := ih s'; omega
       · omega
 
+/-! ### the F09 guard rejects only inputs on which the loop raised anyway -/
+
+/-- `_get_frames`' 16-bit path as it was before the repair: allocate from the declared length, then loop -/
+def sampleArea16Old (d : Bytes) (idx length : Int) : R Bytes :=
+  if length < 0 then .error .value else swapLoop d idx length.toNat 0
+
+theorem pyIndex_error_of_ge (d : Bytes) (i : Int) (h : (d.length : Int) ≤ i) : pyIndex d i = .error .index := by
+  unfold pyIndex
+  have h0 : (0 : Int) ≤ i := by omega
+  have h1 : ¬ (i < (d.length : Int)) := by omega
+  simp [h0, h1]
+
+theorem swapLoop_error_of_short (d : Bytes) (idx : Int) (n i : Nat) (hn : 0 < n)
+    (h : idx + (i : Int) + 2 * (n : Int) > (d.length : Int)) : ∃ e, swapLoop d idx n i = .error e := by
+  induction n generalizing i with
+  | zero => omega
+  | succ n ih =>
+    rw [swapLoop]
+    cases hhi : pyIndex d (idx + (i : Int) + 1) with
+    | error e => exact ⟨e, rfl⟩
+    | ok hi =>
+      cases hlo : pyIndex d (idx + (i : Int)) with
+      | error e => exact ⟨e, rfl⟩
+      | ok lo =>
+        by_cases hz : n = 0
+        · subst hz
+          have : pyIndex d (idx + (i : Int) + 1) = .error .index := pyIndex_error_of_ge d _ (by omega)
+          rw [this] at hhi; cases hhi
+        · obtain ⟨e, he⟩ := ih (i + 2) (by omega) (by omega)
+          exact ⟨e, by simp only [bind, Except.bind, he]⟩
+
+theorem pyIndex_ok_lt (d : Bytes) (i : Int) (v : UInt8) (h : pyIndex d i = .ok v) : i < (d.length : Int) := by
+  unfold pyIndex at h
+  by_cases h0 : 0 ≤ i
+  · by_cases h1 : i < (d.length : Int)
+    · exact h1
+    · simp [h0, h1] at h
+  · omega
+
+theorem pySlice_length_le (d : Bytes) (off : Int) (k : Nat) (h : (pySlice d off (off + k)).length = k) (hk : 0 < k) :
+    off + (k : Int) ≤ (d.length : Int) := by
+  unfold pySlice at h
+  simp only [List.length_take, List.length_drop] at h
+  by_cases h0 : off < 0
+  · by_cases h1 : off + (k : Int) < 0
+    · omega
+    · simp only [h0, h1, if_true, if_false] at h; omega
+  · have h1 : ¬ (off + (k : Int) < 0) := by omega
+    simp only [h0, h1, if_false] at h; omega
+
+theorem getSI_ok_le (k : Nat) (d : Bytes) (off : Int) (v : Int) (hk : 0 < k) (h : getSI k d off = .ok v) :
+    off + (k : Int) ≤ (d.length : Int) := by
+  unfold getSI unpackS at h
+  by_cases hl : (pySlice d off (off + (k : Int))).length = k
+  · exact pySlice_length_le d off k hl hk
+  · simp [hl] at h
+
+/-- the sample area of a header that could be read starts inside (or right at the end of) the data -/
+theorem soundHeader_end_le (st : St) (idx : Int) (d : Bytes) (r : St × Int × Int) (h : soundHeader st idx d = .ok r) :
+    r.2.1 ≤ (d.length : Int) := by
+  unfold soundHeader at h
+  simp only [bind, Except.bind] at h
+  repeat' (split at h)
+  all_goals first
+    | contradiction
+    | (have h60 : ∃ v, getSI 4 d (idx + 60) = .ok v := ⟨_, by assumption⟩
+       obtain ⟨v, hv⟩ := h60
+       have := getSI_ok_le 4 d (idx + 60) v (by decide) hv
+       simp only [Except.ok.injEq] at h; subst h; simp only; omega)
+    | (have h21 : ∃ v, pyIndex d (idx + 21) = .ok v := ⟨_, by assumption⟩
+       obtain ⟨v, hv⟩ := h21
+       have := pyIndex_ok_lt d (idx + 21) v hv
+       simp only [Except.ok.injEq] at h; subst h; simp only; omega)
+
+/-- the repaired 16-bit path returns exactly what the old one returned whenever the old one returned anything
+    (`idx ≤ len` holds for the index `_get_frames` reaches: `soundHeader_end_le`) -/
+theorem guard_preserves_results (st : St) (hb : st.bits = 16) (d : Bytes) (idx length : Int) (r : Bytes)
+    (hidx : idx ≤ (d.length : Int))
+    (hold : sampleArea16Old d idx length = .ok r) : sampleArea st d idx length = .ok r := by
+  unfold sampleArea16Old at hold
+  by_cases hneg : length < 0
+  · simp [hneg] at hold
+  · simp only [hneg, if_false] at hold
+    simp only [sampleArea, hb, if_true, if_false, hneg]
+    by_cases hg : idx + length * 2 > (d.length : Int)
+    · exfalso
+      have hpos : 0 < length.toNat := by omega
+      obtain ⟨e, he⟩ := swapLoop_error_of_short d idx length.toNat 0 hpos (by omega)
+      rw [he] at hold; cases hold
+    · simp only [hg, if_false]; exact hold
+
 end Drx.Snd
